@@ -328,7 +328,7 @@ impl PartialEqSpecImpl for Node {
     open spec fn eq_spec(&self, other: &Node) -> bool { self.handle.id == other.handle.id && self.handle.addr == other.handle.addr }
 }
 impl PartialEq<Node> for Node {
-//@begin fn src/node.rs impl:PartialEq<Node>forNode eq
+//@begin fn src/node.rs impl:PartialEq<Node>@for@Node eq
     fn eq(&self, other: &Node) -> bool {
         self.handle == other.handle
     }
